@@ -9,9 +9,11 @@ SPEC = dict(
          '{blocking TCP, blocking HTTP, async TCP, async HTTP} x content (aggregation: 4 hash algorithms x level {0,1,255}; extension: without / with publication '
          'time). The bytes handed to the transport are re-parsed by the reference request parser: header present and first, login id as configured, MAC present and '
          'last, MAC algorithm = configured, MAC = reference HMAC over the authenticated range (v2: every byte before the digest; v1: header TLV + payload TLV), '
-         'request content unchanged. One case = one (service, version, algorithm, key, login, client) with all contents. '
+         'request content unchanged. One case = one (service, version, algorithm, key, login, client) with all contents; the same again with a request header callback '
+         '(KSI_CTX_setRequestHeaderCallback) that adds an instance id and a message id: on the blocking clients the wire header must carry them and the MAC must cover them. '
          'Part B (responses): the reference server answers the request really emitted with an authentic response (aggregation, extension, aggregator and '
-         'extender configuration; PDU v2 and v1) and the driver applies one deviation: every single-bit flip, every truncation length, every splice point with a '
+         'extender configuration, and a v2 aggregation / extension response carrying an unrequested (pushed) configuration that reaches the caller through the '
+         'KSI_OPT_*_CONF_RECEIVED_CALLBACK context option or KSI_ASYNC_OPT_PUSH_CONF_CALLBACK; PDU v2 and v1) and the driver applies one deviation: every single-bit flip, every truncation length, every splice point with a '
          'second authentic response under the same key, MAC under 5 other keys, MAC under each other algorithm (pinned / pinning removed after the request left / '
          'unpinned with a wrong key), other PDU version, header removed, MAC removed, MAC not last, header last, digest bit flipped, and for the 2-endpoint HA '
          'service: one endpoint bad, each endpoint answered under the other endpoint\'s key - through blocking TCP/HTTP (KSI_Signature_signAggregated, '
@@ -42,7 +44,7 @@ SPEC = dict(
                'after the request left (a request cannot be built without a configured algorithm); then a valid MAC under another supported algorithm may be delivered.',
     require_outcomes=['req:aggr:v2:alg1:ok', 'req:aggr:v1:alg1:ok', 'req:ext:v2:alg1:ok', 'req:ext:v1:alg1:ok', 'req:aconf:v2:alg1:ok', 'req:econf:v2:alg1:ok',
                       'req:econf:v1:*:nothing-sent', 'req:*:alg2:ok', 'req:*:alg4:ok', 'req:*:alg5:ok',
-                      'resp:authentic:delivered', 'resp:authentic:alg2:delivered', 'resp:authentic:alg4:delivered', 'resp:authentic:alg5:delivered',
+                      'resp:authentic:delivered', 'resp:authentic:pushed-config-delivered', 'req:*:hdrcb:ok', 'resp:authentic:alg2:delivered', 'resp:authentic:alg4:delivered', 'resp:authentic:alg5:delivered',
                       'resp:flip:v2:refused', 'resp:flip:v1:refused', 'resp:flip:v1:*', 'resp:trunc:v2:refused', 'resp:trunc:v1:refused', 'resp:splice:v2:refused',
                       'resp:other-key:v2:refused', 'resp:other-key:v1:refused', 'resp:other-alg:v2:refused', 'resp:other-alg:v1:refused', 'resp:other-alg-unpinned:v2:*',
                       'resp:unpinned-bad-key:v2:refused', 'resp:other-version:v2:refused', 'resp:other-version:v1:refused', 'resp:no-header:v2:refused',
